@@ -213,7 +213,9 @@ def check(pid, mod, tier, seed, scratch, jobs, t0, nfiles):
         with open(path, "w") as f:
             json.dump({"property": pid, "seed": seed, "tier": tier, **v}, f, indent=1)
         seen_kinds.setdefault(v["kind"], []).append(path)
-        lines.append("VIOLATION property=%s replay=%s" % (pid, path))
+        line = "VIOLATION property=%s replay=%s" % (pid, path)
+        if line not in lines:
+            lines.append(line)
         print("  %s: %s" % (v["kind"], v["detail"][:400]))
         print("  case: %s" % v["case"][:600])
 
